@@ -17,6 +17,8 @@ HANDLERS = {
     "kbd_py": ("harness.py.kbd_cmd", "run"),
     "mem_py": ("harness.py.mem_cmd", "run"),
     "il": ("harness.py.il_cmd", "run"),
+    "asm": ("harness.py.asm_cmd", "asm"),
+    "asm_seq": ("harness.py.asm_cmd", "asm_seq"),
     "info": ("harness.py.static_cmd", "info"),
     "render": ("harness.py.static_cmd", "render"),
     "exec_py": ("harness.py.exec_cmd", "run"),
